@@ -71,7 +71,7 @@ def stepRef (N : LabelNorm) (D : DefTab) (st : NSt) (label : Bytes) : NodeValue 
   | some d =>
     let seen' := if st.seen.contains key then st.seen else st.seen ++ [key]
     let hist' := key :: st.hist
-    (.footnoteReference (N.keep d.name) (hist'.count key) (seen'.idxOf key + 1), ⟨seen', hist'⟩)
+    (.footnoteReference d.name (hist'.count key) (seen'.idxOf key + 1), ⟨seen', hist'⟩)
 
 mutual
 /-- `find_footnote_references`: pre-order walk over the whole tree *including* the inside of every
@@ -164,7 +164,7 @@ def rootDefs : Tree → List (Bytes × Nat)
 def refsPointOk (N : LabelNorm) (t : Tree) : Bool :=
   (allRefsT t).all fun r =>
     decide (1 ≤ r.2.2) && (match (rootDefs t)[r.2.2 - 1]? with
-      | some d => N.keep d.1 == r.1
+      | some d => d.1 == r.1
       | none => false)
 
 /-- No definition name is rendered twice. -/
